@@ -787,6 +787,11 @@ func (e *SpecEnv) callExpr(n *ast.CallExpr) SVal {
 		case "fresh":
 			a := e.eval(n.Args[0])
 			if e.oldLW == nil {
+				// where a clause has no pre-state of its own (a callee's precondition, an invariant supplied for an
+				// inlined loop) "fresh" is relative to the entry of the function under verification
+				if e.v != nil && e.v.entry != nil {
+					return SVal{Lt(a.T, e.v.entry.lw()), tyBool}
+				}
 				unsup("fresh() without pre-state")
 			}
 			return SVal{Lt(a.T, e.oldLW), tyBool}
@@ -877,6 +882,13 @@ func (e *SpecEnv) callExpr(n *ast.CallExpr) SVal {
 					return SVal{e.st.load(e.fr.bindings[i], sortOf(T)), T}
 				}
 			}
+			// ... or a local of this function that closures capture (the variable itself, by its compiler-given name)
+			if a := findAlloc(e.fr.fn, name); a != nil {
+				if ref, ok := e.st.env[a]; ok {
+					T := elemType(a.Type())
+					return SVal{e.st.load(ref, sortOf(T)), T}
+				}
+			}
 			e.fail(n, "no captured variable %s", name)
 		case "flagstr", "flagint", "flagbool":
 			// the value of a command-line flag (the fixed unknown value the flag getters return for that name)
@@ -919,7 +931,11 @@ func (e *SpecEnv) callExpr(n *ast.CallExpr) SVal {
 			// handed out (the current one included); rangekey() - the key of the current iteration
 			var it *iterInfo
 			for rg, x := range e.st.iters {
-				if x.visited != nil && e.fr != nil && rg.Parent() == e.fr.fn && (it == nil || x.seq > it.seq) {
+				own := e.fr != nil && rg.Parent() == e.fr.fn
+				if !own && e.fr != nil && len(e.st.frames) > 1 && e.fr == e.st.frames[0] {
+					own = true // clauses the function under verification supplies for a loop of an inlined callee
+				}
+				if x.visited != nil && own && (it == nil || x.seq > it.seq) {
 					it = x
 				}
 			}
